@@ -21,7 +21,23 @@ def pairs(n, kalpha, valpha):
 
 def native_plan(tier):
     k, v = ('0-2', '0-1') if tier == 'quick' else ('0-2', '0-2')
-    return [
+    extra = []
+    if tier == 'thorough':
+        # more keys than any size-based threshold a small refactor would plausibly introduce
+        extra = [
+            ('type1_move_le5', pairs(5, '0-3', '0') + ';' + pairs(5, '0-2', '1'), 'pairs of indices built from <= 5 inserts over 4 / 3 keys: move_index_contents'),
+            ('full_ops_le5', pairs(5, '0-3', '0') + ';' + pairs(5, '0-2', '1'), 'full index: <= 5 insert_if_not_present over 4 keys x second index of <= 5 inserts over 3 keys, move_index_contents'),
+            ('lattice_ops_le5', pairs(5, '0-3', '0') + ';' + pairs(5, '0-2', '1'), 'lattice index: pairs of indices built from <= 5 inserts over 4 / 3 keys'),
+        ]
+    sw = '0-40;0-40;0,1,17,33;0,1,17,33' if tier == 'quick' else '0-70;0-70;0,1,9,17,33,65;0,1,9,17,33,65'
+    swd = 'bucket lengths a, b and numbers of extra keys swept far beyond the exhaustive enumerations (size-based branches and thresholds): ' + sw
+    extra += [
+        ('type1_move_sweep', sw, 'hash-vector index move + default merge; ' + swd),
+        ('lattice_move_sweep', sw, 'lattice index move; ' + swd),
+        ('full_move_sweep', sw, 'full index insert_if_not_present + move; ' + swd),
+        ('noindex_move_sweep', sw, 'no-index move; ' + swd),
+    ]
+    return extra + [
         ('type1_insert_get_le4', pairs(4, '0-2', '0-2'), 'all insert sequences of <= 4 (key,value) pairs over {0..2}^2; every lookup and full iteration compared with a reference multimap'),
         ('type1_move_le3', pairs(3, k, v) + ';' + pairs(3, k, v), 'all pairs of indices built from <= 3 inserts each (keys %s, values %s): move_index_contents, both swap branches' % (k, v)),
         ('type1_merge_le2', ';'.join([pairs(2, k, '0-1')] * 3), 'all triples (new, delta, total) of indices built from <= 2 inserts each'),
@@ -38,17 +54,17 @@ def native_plan(tier):
 def cex_candidates(container, fn):
     c = container
     if 'RelNoIndexType' in c:
-        return ['noindex_ops_le3']
+        return ['noindex_ops_le3', 'noindex_move_sweep']
     if 'LatticeIndexType' in c:
-        return ['lattice_ops_le3']
+        return ['lattice_ops_le3', 'lattice_move_sweep', 'lattice_ops_le5']
     if 'HashBrownRelFullIndexType' in c:
-        return ['full_ops_le3']
+        return ['full_ops_le3', 'full_move_sweep', 'full_ops_le5']
     if 'RelIndexType1' in c:
         if fn == 'move_index_contents':
-            return ['type1_move_le3', 'type1_merge_le2']
-        return ['type1_insert_get_le4', 'type1_move_le3']
+            return ['type1_move_le3', 'type1_merge_le2', 'type1_move_sweep', 'type1_move_le5']
+        return ['type1_insert_get_le4', 'type1_move_le3', 'type1_move_sweep']
     if 'trait RelIndexMerge' in c:
-        return ['type1_merge_le2']
+        return ['type1_merge_le2', 'type1_move_sweep']
     if 'RelIndexCombined' in c:
         return ['combined_view_native']
     if 'for&mut T' in c or 'for&T' in c:
@@ -129,7 +145,7 @@ def run_native_part(binary, tier):
     out = {'results': {}, 'failures': []}
 
     def one(p):
-        return p, kani.native_exhaust(binary, p[0], p[1], timeout=3600)
+        return p, kani.native_exhaust(binary, p[0], p[1], timeout=1500)
     with ThreadPoolExecutor(max_workers=6) as ex:
         for p, r in ex.map(one, native_plan(tier)):
             out['results'][p[0]] = dict(r, domain=p[2])
@@ -167,7 +183,7 @@ def run_concurrent_part(tier, only_full=False):
     out = {'results': {}, 'failures': [], 'binary': binary, 'crate': crate}
 
     def one(p):
-        return p, kani.native_exhaust(binary, p[0], p[1], timeout=3600)
+        return p, kani.native_exhaust(binary, p[0], p[1], timeout=1500)
     with ThreadPoolExecutor(max_workers=3) as ex:
         for p, r in ex.map(one, concurrent_plan(tier, only_full)):
             out['results'][p[0]] = dict(r, domain=p[2])
